@@ -147,6 +147,24 @@ func Holders() []Holder {
 			b.Add(RootFile, P(J{"description": "shared", "schema": s}, "responses", n),
 				P(J{"$ref": "#/responses/" + n}, "paths", BasePath, "get", "responses", strconv.Itoa(404+slot)))
 		}},
+		{Label: "optionsBody", Put: func(b *BundleSpec, slot int, s J) {
+			pt := "/o" + strconv.Itoa(slot)
+			b.Add(RootFile, P(J{"operationId": "optionsO" + strconv.Itoa(slot), "parameters": []any{J{"name": "body", "in": "body", "schema": s}}}, "paths", pt, "options"),
+				P(J{"description": "ok"}, "paths", pt, "options", "responses", "200"))
+		}},
+		{Label: "optionsResponse", Put: func(b *BundleSpec, slot int, s J) {
+			pt := "/o" + strconv.Itoa(slot)
+			b.Add(RootFile, P(J{"operationId": "optionsO" + strconv.Itoa(slot)}, "paths", pt, "options"), P(J{"description": "ok", "schema": s}, "paths", pt, "options", "responses", "200"))
+		}},
+		{Label: "headResponse", Put: func(b *BundleSpec, slot int, s J) {
+			pt := "/o" + strconv.Itoa(slot)
+			b.Add(RootFile, P(J{"operationId": "headO" + strconv.Itoa(slot)}, "paths", pt, "head"), P(J{"description": "ok", "schema": s}, "paths", pt, "head", "responses", "default"))
+		}},
+		{Label: "deleteBody", Put: func(b *BundleSpec, slot int, s J) {
+			pt := "/o" + strconv.Itoa(slot)
+			b.Add(RootFile, P(J{"operationId": "deleteO" + strconv.Itoa(slot), "parameters": []any{J{"name": "body", "in": "body", "schema": s}}}, "paths", pt, "delete"),
+				P(J{"description": "ok"}, "paths", pt, "delete", "responses", "204"))
+		}},
 		{Label: "nestedInOp", Put: func(b *BundleSpec, slot int, s J) {
 			c := strconv.Itoa(205 + slot)
 			b.Add(RootFile, P(J{"description": "n", "schema": J{"type": "object", "properties": J{"nested": J{"type": "array", "items": s}}}}, "paths", BasePath, "get", "responses", c))
@@ -247,6 +265,26 @@ func Contents(names []string) []Content {
 			return J{"$ref": AuxA + "#/definitions/cnode"}
 		}).Aux = true
 	}
+	for _, rec := range []bool{true, false} {
+		rec := rec
+		label := "auxDiamondColliding"
+		if rec {
+			label += "[recursive]"
+		}
+		add(label, "recursive-aux-collide", func(b *BundleSpec, s int) J {
+			node := J{"l": J{"$ref": "#/definitions/leaf"}, "m": J{"$ref": "#/definitions/mid"}}
+			if rec {
+				node["next"] = J{"$ref": "#/definitions/dnode"}
+				b.Cyclic = true
+			}
+			b.Add(AuxA, P(J{"type": "object", "properties": node}, "definitions", "dnode"),
+				P(J{"type": "object", "properties": J{"ml": J{"$ref": "#/definitions/leaf"}}}, "definitions", "mid"),
+				P(J{"type": "string", "description": "aux leaf"}, "definitions", "leaf"))
+			b.Add(RootFile, P(J{"type": "integer", "description": "root leaf"}, "definitions", "leaf"))
+			b.use("leaf")
+			return J{"$ref": AuxA + "#/definitions/dnode"}
+		}).Aux = true
+	}
 	add("mutualRecursive", "recursive", func(b *BundleSpec, s int) J {
 		b.Add(RootFile, P(J{"type": "object", "properties": J{"b": LocalRef("mb")}}, "definitions", "ma"), P(J{"type": "object", "properties": J{"a": LocalRef("ma")}}, "definitions", "mb"))
 		b.Cyclic = true
@@ -279,7 +317,7 @@ func Contents(names []string) []Content {
 		{"additionalProperties", "/additionalProperties", func(sub J) J { return J{"type": "object", "additionalProperties": sub} }},
 	}
 	for _, p := range ptrs {
-		for _, cx := range []string{"simple", "complex", "refLocal", "refAux", "refAuxCollide"} {
+		for _, cx := range []string{"simple", "complex", "refLocal", "refAux", "refAuxCollide", "arrayOfRef", "mapOfRef"} {
 			p, cx := p, cx
 			c := add("pointer["+p.label+","+cx+"]", "pointer-"+cx, func(b *BundleSpec, s int) J {
 				sub := J{"type": "string", "description": "ptr target"}
@@ -293,6 +331,12 @@ func Contents(names []string) []Content {
 				case "refAux":
 					b.Add(AuxA, P(simpleObj("ptAux"), "definitions", "ptAux"))
 					sub = J{"$ref": AuxA + "#/definitions/ptAux"}
+				case "arrayOfRef":
+					b.Add(RootFile, P(simpleObj("ptElem"), "definitions", "ptElem"))
+					sub = J{"type": "array", "items": LocalRef("ptElem")}
+				case "mapOfRef":
+					b.Add(RootFile, P(simpleObj("ptElem"), "definitions", "ptElem"))
+					sub = J{"type": "object", "additionalProperties": LocalRef("ptElem")}
 				case "refAuxCollide":
 					b.Add(RootFile, P(simpleObj("rootThing"), "definitions", "thing"))
 					b.use("thing")
@@ -307,6 +351,33 @@ func Contents(names []string) []Content {
 			})
 			c.Pointer = true
 		}
+	}
+	{
+		c := add("pointerPrefixSibling", "pointer-simple", func(b *BundleSpec, s int) J {
+			// the pointed property's name extends the name of a complex sibling: keys that are string prefixes of one another
+			b.Add(RootFile, P(J{"type": "object", "properties": J{"owner": simpleObj("owner"), "ownerId": J{"type": "string", "format": "uuid"}}}, "definitions", "tgtPrefix"))
+			b.use("tgtPrefix")
+			b.HasPointer = true
+			return J{"$ref": "#/definitions/tgtPrefix/properties/ownerId"}
+		})
+		c.Pointer = true
+		c = add("pointerNestedInTarget", "pointer-complex", func(b *BundleSpec, s int) J {
+			// the target of the pointer contains, deeper, another pointer to a direct sub-schema of the same definition
+			b.Add(RootFile, P(J{"type": "object", "properties": J{
+				"owner":   J{"type": "object", "properties": J{"name": J{"type": "string"}, "addr": J{"$ref": "#/definitions/tgtNested/properties/address"}}},
+				"address": J{"type": "object", "properties": J{"street": J{"type": "string"}}}}}, "definitions", "tgtNested"))
+			b.use("tgtNested")
+			b.HasPointer = true
+			return J{"$ref": "#/definitions/tgtNested/properties/owner"}
+		})
+		c.Pointer = true
+		c = add("twoPointersOneTarget", "pointer-simple", func(b *BundleSpec, s int) J {
+			b.Add(RootFile, P(J{"type": "object", "properties": J{"shared": J{"type": "string", "description": "common"}, "other": J{"$ref": "#/definitions/tgtShared/properties/shared"}}}, "definitions", "tgtShared"))
+			b.use("tgtShared")
+			b.HasPointer = true
+			return J{"$ref": "#/definitions/tgtShared/properties/shared"}
+		})
+		c.Pointer = true
 	}
 	for _, kind := range []string{"parameters", "responses"} {
 		for _, cx := range []string{"simple", "complex"} {
